@@ -168,6 +168,27 @@ func (bc *boundsChecker) checkDiv(rule string, fn *ssa.Function, a *Arith, x *ss
 		bc.s.OK(rule, key, m.InstrPos(x), "divisor proven non-zero by dominating comparisons")
 		return
 	}
+	// the division of the language's own / or % operator, reached only through the operator dispatch that the case
+	// evaluation decided: error on the zero side, the quotient on the other
+	if cr := m.opCases(); cr.decided && cr.bad["INTEGER /"] == "" && cr.bad["INTEGER %"] == "" && cr.divSites[x] {
+		only := true
+		if node := m.CG.Nodes[fn]; node != nil {
+			for _, e := range node.In {
+				if e.Site == nil || !cr.callSites[e.Site] {
+					only = false
+				}
+			}
+			if len(node.In) == 0 {
+				only = false
+			}
+		} else {
+			only = false
+		}
+		if only {
+			bc.s.OK(rule, key, m.InstrPos(x), "decided by cases: this division is executed only by the operator dispatch evaluated for INTEGER / and INTEGER %%, where a zero divisor takes the error side before it (every call site of %s lies on that path)", fnKey(fn))
+			return
+		}
+	}
 	bc.s.Violation(rule, key, m.InstrPos(x), "integer %s in %s: divisor %s is not a non-zero constant and no dominating test excludes 0; a zero divisor panics (runtime error: integer divide by zero)", x.Op, fnKey(fn), valueDesc(x.Y))
 }
 
